@@ -28,7 +28,9 @@ import (
 // ------------------------------------------------------------------------------------------------ input/output
 
 type step struct {
-	A     string   `json:"a"`               // op | tick | sweep
+	A     string   `json:"a"`               // op | tick | sweep | conc
+	Ops   []concOp `json:"ops,omitempty"`   // conc: the concurrent requests (per request goroutine p in order)
+	Sched []string `json:"sched,omitempty"` // conc: schedule, one entry = "request p executes its next critical section"
 	Op    string   `json:"op,omitempty"`    // create addSvc updSvc delSvc addKey deactivate
 	S     string   `json:"s,omitempty"`     // subject
 	Net   string   `json:"net,omitempty"`   // ok | fail : answer of the network to CreateTransaction during this op
@@ -124,7 +126,7 @@ func (w *world) snapshot(subjects []string) snap {
 	sn.Log = int(n)
 	for _, s := range subjects {
 		var ss subjSnap
-		dids, err := w.mgr.ListDIDs(w.ctx, s)
+		dids, err := w.obs.ListDIDs(w.ctx, s)
 		if err != nil && !errors.Is(err, didsubject.ErrSubjectNotFound) {
 			panic(fmt.Sprintf("ListDIDs: %v", err))
 		}
@@ -243,6 +245,8 @@ type runner struct {
 	tracks   []*opTrack
 	// since the last clean quiescent point
 	opOnPending map[string]bool
+	concOnPending map[string]bool // a request's first transaction ran while another request on the subject was in flight
+	liveRuns    []*opRun
 	sweepAbort  string // cause of the last aborted sweep ("" = none)
 	committed   map[string][]int // per DID: version list at the last quiescent point
 	didsOf      map[string]map[string]string // per subject: method -> DID once documents were committed
@@ -250,7 +254,17 @@ type runner struct {
 
 func (w *world) logTx1(r *opRun, out string) {
 	r.tx1Logged = true
-	w.event(map[string]any{"ev": "tx1", "op": r.op, "s": r.subject, "out": out})
+	r.tx1Out = out
+	if cr := curRunner; cr != nil && out == "changed" {
+		// concurrent requests: this first transaction ran while another request on the subject was between its first and
+		// its clean-up transaction
+		for _, o := range cr.liveRuns {
+			if o != r && o.subject == r.subject && o.tx1Out == "changed" && !o.finished {
+				cr.concOnPending[r.subject] = true
+			}
+		}
+	}
+	w.event(map[string]any{"ev": "tx1", "op": r.op, "s": r.subject, "out": out, "p": r.proc()})
 }
 
 var curRunner *runner
@@ -291,6 +305,9 @@ func (r *runner) site(s string, ss subjSnap) string {
 	if r.opOnPending[s] {
 		out = append(out, "op-started-on-pending-change")
 	}
+	if r.concOnPending[s] {
+		out = append(out, "concurrent-request-on-pending-change")
+	}
 	if len(out) == 0 {
 		return "unexplained"
 	}
@@ -312,7 +329,7 @@ func (r *runner) call(op, s string) error {
 	case "delSvc":
 		typ := "tA"
 		frag := "none"
-		if svcs, err := w.mgr.FindServices(w.ctx, s, &typ); err == nil && len(svcs) > 0 {
+		if svcs, err := w.obs.FindServices(w.ctx, s, &typ); err == nil && len(svcs) > 0 {
 			frag = svcs[0].ID.Fragment
 		}
 		return w.mgr.DeleteService(w.ctx, s, ssi.URI{URL: urlWithFragment(frag)})
@@ -365,7 +382,7 @@ func (r *runner) doOp(st step) (orderMiss bool) {
 			panic(stopped)
 		}
 		tr.outcome = "stopped"
-		w.event(map[string]any{"ev": "stop"})
+		w.event(map[string]any{"ev": "stop", "p": "p1"})
 		w.restart()
 	} else if !run.tx1Logged {
 		// no CommitMethod call: Tx1 was refused or changed nothing
@@ -382,7 +399,7 @@ func (r *runner) doOp(st step) (orderMiss bool) {
 		if err != nil {
 			kind, tr.outcome = "abandon", "err"
 		}
-		w.event(map[string]any{"ev": "tx2", "kind": kind})
+		w.event(map[string]any{"ev": "tx2", "kind": kind, "p": "p1"})
 	}
 	if outc == "" {
 		outc = tr.outcome
@@ -695,6 +712,7 @@ func (r *runner) quiescent() {
 		}
 		if clean {
 			r.opOnPending = map[string]bool{}
+			r.concOnPending = map[string]bool{}
 		}
 	}
 }
@@ -710,7 +728,7 @@ func runScript(t *testing.T, base string, n int, in input, sc script) (res resul
 	res = result{ID: sc.ID, Violations: []violation{}, Drift: []string{}}
 	w := newWorld(t, base, n)
 	defer w.close()
-	r := &runner{w: w, in: in, subjects: in.Subjects, res: &res, opOnPending: map[string]bool{}, committed: map[string][]int{}, didsOf: map[string]map[string]string{}}
+	r := &runner{w: w, in: in, subjects: in.Subjects, res: &res, opOnPending: map[string]bool{}, concOnPending: map[string]bool{}, committed: map[string][]int{}, didsOf: map[string]map[string]string{}}
 	curRunner = r
 	defer func() {
 		if rec := recover(); rec != nil {
@@ -727,6 +745,8 @@ func runScript(t *testing.T, base string, n int, in input, sc script) (res resul
 			if r.doOp(st) {
 				res.OrderMiss++
 			}
+		case "conc":
+			r.doConc(st)
 		case "tick":
 			r.tick()
 		case "sweep":
